@@ -10,6 +10,7 @@ import (
 	"crypto/tls"
 	"io"
 	"net"
+	"strings"
 	"time"
 
 	"github.com/emersion/go-imap/v2"
@@ -518,3 +519,91 @@ func TrackerWF(t *SessionTracker) bool {
 //@   ensures old(dec.Err()) != nil ==> dec.Err() == old(dec.Err())
 
 var _ time.Time
+
+// ---------------------------------------------------------------------------
+// C20: LIST wildcard matching. specMatch is the character-level definition
+// taken from the property: '*' stands for any sequence, '%' for any sequence
+// not containing the delimiter, every other character for itself.
+
+//@ pure
+func isDelimByte(b byte, d string) bool { return len(d) == 1 && d[0] == b }
+
+//@ pure
+//@ decreases len(n) + len(p)
+func specMatch(n, d, p string) bool {
+	if len(p) == 0 {
+		return len(n) == 0
+	}
+	c := p[0]
+	if c == '*' {
+		return specMatch(n, d, p[1:]) || (len(n) > 0 && specMatch(n[1:], d, p))
+	}
+	if c == '%' {
+		return specMatch(n, d, p[1:]) || (len(n) > 0 && !isDelimByte(n[0], d) && specMatch(n[1:], d, p))
+	}
+	return len(n) > 0 && n[0] == c && specMatch(n[1:], d, p[1:])
+}
+
+// anyFrom: some suffix n[k:], k >= j, matches rest, and (for '%') no delimiter
+// occurs in n[j:k].
+//
+//@ pure
+//@ decreases len(n) - j
+func anyFrom(n, d, rest string, j int, pct bool) bool {
+	if j < 0 || j > len(n) {
+		return false
+	}
+	if specMatch(n[j:], d, rest) {
+		return true
+	}
+	return j < len(n) && !(pct && isDelimByte(n[j], d)) && anyFrom(n, d, rest, j+1, pct)
+}
+
+//@ pure
+func noWild(p string, i int) bool {
+	return __forall(func(k int) bool { return !(0 <= k && k < i) || (p[k] != '*' && p[k] != '%') })
+}
+
+// lemmaChunk: a wildcard-free prefix of the pattern matches exactly itself.
+//
+//@ lemma
+//@ props C20
+//@ requires 0 <= i && i <= len(p) && noWild(p, i)
+//@ ensures specMatch(n, d, p) == (strings.HasPrefix(n, p[:i]) && specMatch(n[i:], d, p[i:]))
+//@ decreases i
+func lemmaChunk(n, d, p string, i int) {
+	if i == 0 || len(n) == 0 {
+		return
+	}
+	lemmaChunk(n[1:], d, p[1:], i-1)
+}
+
+// lemmaWild: a leading wildcard matches some (for '%': delimiter-free) prefix.
+//
+//@ lemma
+//@ props C20
+//@ requires 0 <= j && j <= len(n) && len(p) > 0 && (p[0] == '*' || p[0] == '%')
+//@ ensures specMatch(n[j:], d, p) == anyFrom(n, d, p[1:], j, p[0] == '%')
+//@ decreases len(n) - j
+func lemmaWild(n, d, p string, j int) {
+	if j >= len(n) {
+		return
+	}
+	lemmaWild(n, d, p, j+1)
+}
+
+//@ func matchList(name0, delim, pattern string) (result bool)
+//@   props C20
+//@   fuel 2
+//@   requires len(delim) <= 1 && (len(delim) == 1 ==> delim[0] < 128)
+//@   ensures result == specMatch(name0, delim, pattern)
+//@   decreases len(pattern)
+//@   at "return name == pattern" do lemmaChunk(name0, delim, pattern, len(pattern))
+//@   at "if len(chunk) > 0" with (i int) do lemmaChunk(name0, delim, pattern, i)
+//@   at "for j = 0;" with (name string, i int) do lemmaWild(name, delim, pattern[i:], 0)
+//@   loop 0 vars (j int)
+//@   loop 0 locals (name string, rest string, wildcard byte)
+//@   loop 0 invariant 0 <= j && j <= len(name)
+//@   loop 0 invariant anyFrom(name, delim, rest, 0, wildcard == '%') == anyFrom(name, delim, rest, j, wildcard == '%')
+//@   loop 0 decreases len(name) - j
+var _ = strings.HasPrefix
